@@ -36,6 +36,7 @@ type World struct {
 	closureLits map[types.Object]*ast.FuncLit
 	trustedPure []string
 	guards      map[string]*Guard // field key -> guard
+	ownership   map[string]bool   // field key of the atomic.Bool ownership token
 	recRet    map[string]Val
 	loadErrs  []string
 	aliases   map[string]map[string]string // pkgpath -> import path -> local name
@@ -57,7 +58,7 @@ func loadWorld(repo string, patterns []string, overlay map[string][]byte) (*Worl
 	}
 	w := &World{
 		pkgs: map[string]*packages.Package{}, decls: map[*types.Func]*declInfo{}, declsByName: map[string]*declInfo{},
-		contracts: map[string]*Contract{}, macros: map[string][]*Macro{}, heapSorts: map[string]Val{}, guards: map[string]*Guard{},
+		contracts: map[string]*Contract{}, macros: map[string][]*Macro{}, heapSorts: map[string]Val{}, guards: map[string]*Guard{}, ownership: map[string]bool{},
 		allocs: map[*FV][]string{}, inlining: map[*types.Func]bool{}, closureLits: map[types.Object]*ast.FuncLit{},
 		recRet: map[string]Val{}, aliases: map[string]map[string]string{},
 	}
@@ -253,6 +254,10 @@ func (w *World) loadSpecs(speclib string) error {
 		}
 		w.axioms = append(w.axioms, sf.Axioms...)
 		for _, g := range sf.Guards {
+			if g.Mutex == "" {
+				w.ownership[g.Pkg+"."+g.Type+"."+g.Field] = true
+				continue
+			}
 			w.guards[g.Pkg+"."+g.Type+"."+g.Field] = g
 		}
 	}
